@@ -62,8 +62,52 @@ func toMetric[M any](m M) prometheus.Metric {
 	return x
 }
 
-func mk[M any, V any](v vecAPI[M, V]) *adapter {
-	d := any(v).(delAPI)
+// The caller owns the arguments of every call: label values are handed over in a scratch slice (with
+// spare capacity) and label maps in a scratch map, and both are scribbled over as soon as the call
+// returns. A vector that keeps a reference to its arguments instead of copying them then diverges
+// from the plain map (its stored key changes behind its back).
+const junk = "\x00scribbled"
+
+func scratchLVs(lvs []string) []string {
+	b := make([]string, len(lvs), len(lvs)+3)
+	copy(b, lvs)
+	return b
+}
+
+func scribbleLVs(b []string) {
+	b = b[:cap(b)]
+	for i := range b {
+		b[i] = junk
+	}
+}
+
+func scratchLabels(l prometheus.Labels) prometheus.Labels {
+	if l == nil {
+		return nil
+	}
+	c := make(prometheus.Labels, len(l))
+	for k, v := range l {
+		c[k] = v
+	}
+	return c
+}
+
+func scribbleLabels(l prometheus.Labels) {
+	for k := range l {
+		l[k] = junk
+	}
+	for k := range l {
+		delete(l, k)
+	}
+	if l != nil {
+		l[junk] = junk
+	}
+}
+
+func mk[M any, V any](v0 vecAPI[M, V]) *adapter {
+	d0 := any(v0).(delAPI)
+	v := scribblingVec[M, V]{v0}
+	d := scribblingDel{d0}
 	return &adapter{
 		getLV: func(lvs []string) (prometheus.Metric, error) {
 			m, err := v.GetMetricWithLabelValues(lvs...)
@@ -95,9 +139,60 @@ func mk[M any, V any](v vecAPI[M, V]) *adapter {
 		delLV:      func(lvs []string) bool { return d.DeleteLabelValues(lvs...) },
 		delL:       func(l prometheus.Labels) bool { return d.Delete(l) },
 		delPartial: func(l prometheus.Labels) int { return d.DeletePartialMatch(l) },
-		reset:      d.Reset,
-		collect:    d.Collect,
+		reset:      d0.Reset,
+		collect:    d0.Collect,
 	}
+}
+
+type scribblingVec[M any, V any] struct{ v vecAPI[M, V] }
+
+func (s scribblingVec[M, V]) GetMetricWithLabelValues(lvs ...string) (M, error) {
+	b := scratchLVs(lvs)
+	defer scribbleLVs(b)
+	return s.v.GetMetricWithLabelValues(b...)
+}
+func (s scribblingVec[M, V]) WithLabelValues(lvs ...string) M {
+	b := scratchLVs(lvs)
+	defer scribbleLVs(b)
+	return s.v.WithLabelValues(b...)
+}
+func (s scribblingVec[M, V]) GetMetricWith(l prometheus.Labels) (M, error) {
+	c := scratchLabels(l)
+	defer scribbleLabels(c)
+	return s.v.GetMetricWith(c)
+}
+func (s scribblingVec[M, V]) With(l prometheus.Labels) M {
+	c := scratchLabels(l)
+	defer scribbleLabels(c)
+	return s.v.With(c)
+}
+func (s scribblingVec[M, V]) CurryWith(l prometheus.Labels) (V, error) {
+	c := scratchLabels(l)
+	defer scribbleLabels(c)
+	return s.v.CurryWith(c)
+}
+func (s scribblingVec[M, V]) MustCurryWith(l prometheus.Labels) V {
+	c := scratchLabels(l)
+	defer scribbleLabels(c)
+	return s.v.MustCurryWith(c)
+}
+
+type scribblingDel struct{ d delAPI }
+
+func (s scribblingDel) DeleteLabelValues(lvs ...string) bool {
+	b := scratchLVs(lvs)
+	defer scribbleLVs(b)
+	return s.d.DeleteLabelValues(b...)
+}
+func (s scribblingDel) Delete(l prometheus.Labels) bool {
+	c := scratchLabels(l)
+	defer scribbleLabels(c)
+	return s.d.Delete(c)
+}
+func (s scribblingDel) DeletePartialMatch(l prometheus.Labels) int {
+	c := scratchLabels(l)
+	defer scribbleLabels(c)
+	return s.d.DeletePartialMatch(c)
 }
 
 var typeNames = []string{"counter", "gauge", "histogram", "summary"}
@@ -134,7 +229,7 @@ func consFn(code int) prometheus.LabelConstraint {
 }
 
 // newVec builds a vector of the given type; plain selects the v1 constructor (only when all codes are 0).
-func newVec(typ, hmode int, names []string, codes []int, plain bool) *adapter {
+func newVec(typ, hmode int, names []string, codes []int, plain bool, consts prometheus.Labels) *adapter {
 	cl := make(prometheus.ConstrainedLabels, len(names))
 	for i, n := range names {
 		cl[i] = prometheus.ConstrainedLabel{Name: n, Constraint: consFn(codes[i])}
@@ -144,7 +239,7 @@ func newVec(typ, hmode int, names []string, codes []int, plain bool) *adapter {
 	switch typ {
 	case 0:
 		var v *prometheus.CounterVec
-		o := prometheus.CounterOpts{Name: "m", Help: "h"}
+		o := prometheus.CounterOpts{Name: "m", Help: "h", ConstLabels: consts}
 		if plain {
 			v = prometheus.NewCounterVec(o, names)
 		} else {
@@ -153,7 +248,7 @@ func newVec(typ, hmode int, names []string, codes []int, plain bool) *adapter {
 		a, mv = mk[prometheus.Counter, *prometheus.CounterVec](v), v.MetricVec
 	case 1:
 		var v *prometheus.GaugeVec
-		o := prometheus.GaugeOpts{Name: "m", Help: "h"}
+		o := prometheus.GaugeOpts{Name: "m", Help: "h", ConstLabels: consts}
 		if plain {
 			v = prometheus.NewGaugeVec(o, names)
 		} else {
@@ -162,7 +257,7 @@ func newVec(typ, hmode int, names []string, codes []int, plain bool) *adapter {
 		a, mv = mk[prometheus.Gauge, *prometheus.GaugeVec](v), v.MetricVec
 	case 2:
 		var v *prometheus.HistogramVec
-		o := prometheus.HistogramOpts{Name: "m", Help: "h"}
+		o := prometheus.HistogramOpts{Name: "m", Help: "h", ConstLabels: consts}
 		if plain {
 			v = prometheus.NewHistogramVec(o, names)
 		} else {
@@ -171,7 +266,7 @@ func newVec(typ, hmode int, names []string, codes []int, plain bool) *adapter {
 		a, mv = mk[prometheus.Observer, prometheus.ObserverVec](v), v.MetricVec
 	default:
 		var v *prometheus.SummaryVec
-		o := prometheus.SummaryOpts{Name: "m", Help: "h"}
+		o := prometheus.SummaryOpts{Name: "m", Help: "h", ConstLabels: consts}
 		if plain {
 			v = prometheus.NewSummaryVec(o, names)
 		} else {
@@ -224,6 +319,32 @@ func drain(collect func(ch chan<- prometheus.Metric)) []prometheus.Metric {
 	return out
 }
 
+// pairsWellFormed: the complete label-pair list a child writes consists of exactly the const labels (with
+// their values) and the variable label names, sorted by name, none twice.
+func pairsWellFormed(d *dto.Metric, names []string, consts prometheus.Labels) bool {
+	if len(d.Label) != len(names)+len(consts) {
+		return false
+	}
+	seen := map[string]string{}
+	for i, lp := range d.Label {
+		if i > 0 && d.Label[i-1].GetName() >= lp.GetName() {
+			return false
+		}
+		seen[lp.GetName()] = lp.GetValue()
+	}
+	for k, v := range consts {
+		if x, ok := seen[k]; !ok || x != v {
+			return false
+		}
+	}
+	for _, n := range names {
+		if _, ok := seen[n]; !ok {
+			return false
+		}
+	}
+	return true
+}
+
 func labelValuesOf(m prometheus.Metric, names []string) ([]string, *dto.Metric) {
 	var d dto.Metric
 	if err := m.Write(&d); err != nil {
@@ -274,6 +395,7 @@ type seqGen struct {
 	res    []string
 	errs   map[int]bool
 	delHit bool
+	consts prometheus.Labels // const labels of the vector (0, 1, 3 or 5 of them)
 }
 
 func emitLabels(l prometheus.Labels) string {
@@ -666,10 +788,12 @@ func (g *seqGen) opCollect(vi int) {
 		}
 		var es []ent
 		for _, m := range drain(v.a.collect) {
-			vals, _ := labelValuesOf(m, g.names)
+			vals, d := labelValuesOf(m, g.names)
 			id, ok := g.ids[m]
 			if !ok {
 				id = 999999
+			} else if !pairsWellFormed(d, g.names, g.consts) {
+				id = 999998 // the child's label pairs are not exactly {const labels} + {variable labels}, sorted by name
 			}
 			es = append(es, ent{vals, id})
 		}
@@ -738,8 +862,15 @@ func genSeqCase(r *emit.Rng, pm int, invalidCommon bool) (string, bool, []string
 			g.pool = append(g.pool, s)
 		}
 	}
+	if r.Chance(1, 2) {
+		nc := []int{1, 3, 5}[r.Intn(3)]
+		g.consts = prometheus.Labels{}
+		for i := 0; i < nc; i++ {
+			g.consts[fmt.Sprintf("k%d", i+1)] = fmt.Sprintf("c%d", i)
+		}
+	}
 	plain := !constrained && r.Bool()
-	g.views = []*view{{a: newVec(typ, hmode, g.names, codes, plain), curried: make([]bool, nn)}}
+	g.views = []*view{{a: newVec(typ, hmode, g.names, codes, plain, g.consts), curried: make([]bool, nn)}}
 
 	nops := 40 + r.Intn(41)
 	for len(g.ops) < nops {
@@ -788,6 +919,7 @@ func genSeqCase(r *emit.Rng, pm int, invalidCommon bool) (string, bool, []string
 		tags = append(tags, fmt.Sprintf("err:%d", e))
 	}
 	tags = append(tags, fmt.Sprintf("views:%d", len(g.views)-1))
+	tags = append(tags, fmt.Sprintf("constlabels:%d", len(g.consts)))
 	nontrivial := len(g.ids) >= 2 && g.delHit && len(g.errs) > 0
 	return term, nontrivial, tags
 }
@@ -854,7 +986,7 @@ func genStress(r *emit.Rng) (string, bool, []string, []string) {
 		}
 		codes[r.Intn(nn)] = 5
 	}
-	base := newVec(typ, hmode, names, codes, !constrained && r.Bool())
+	base := newVec(typ, hmode, names, codes, !constrained && r.Bool(), nil)
 	// pool of distinct tuples
 	vals := []string{"", "a", "b", "ab", "abc", "é"}
 	nt := 2 + r.Intn(3)
